@@ -29,11 +29,18 @@ def _clear_dicts(cx):
 
 # ------------------------------------------------------------------ Gamma level
 
-def h_gamma_level(cx, layout):
+def h_gamma_level(cx, layout, warm=None):
     """real _calc_gamma(fft=False) / _expand_deltas / _determine_gap / r_length / gamma_div on symbolic fluctuations:
-    rho(t) = Gamma(t)/Gamma(0) with Gamma(t) = sum_r sum_{pairs t steps apart} delta_i delta_j / #pairs; S=0 gives the naive error."""
+    rho(t) = Gamma(t)/Gamma(0) with Gamma(t) = sum_r sum_{pairs t steps apart} delta_i delta_j / #pairs; S=0 gives the naive error.
+    `warm`: layouts of other objects analysed earlier in the same process (history: nothing they leave behind may matter)."""
     lib.sym_env(cx, *MODS)
     _clear_dicts(cx)
+    for k, wl in enumerate(warm or []):
+        import pyerrors as pe
+        names = sorted(wl)          # concrete data: only what the earlier analysis leaves behind matters
+        ow = pe.Obs([np.array([1.0 + 0.37 * ((7 * c + 3 * k + j) % 5) for c in wl[n]]) for j, n in enumerate(names)], names, idl=[list(wl[n]) for n in names])
+        ow.gamma_method(S=0, fft=False)
+        ow.gamma_method(fft=False)
     o, spec = lib.mk_obs(cx, 'x', layout)
     o.gamma_method(S=0, fft=False)
     ens = _ens(layout)
